@@ -1,9 +1,9 @@
 (* C10 — property theorems only.  Each is closed by [exact lemma]; Print Assumptions beneath.
    bins_u / bins_t are the two copies of coordinate_to_bins REGENERATED from /repo (Gen/GenBins.v);
    skip_bin is the regenerated over-bounds test of assignReads. *)
-From Coq Require Import ZArith List Bool.
+From Coq Require Import ZArith List Bool Permutation Sorted.
 Import ListNotations.
-From SCMO Require Import Lib.PyInt Gen.GenBins Model.C10 Proofs.C10.
+From SCMO Require Import Lib.PyInt Gen.GenBins Model.C10 Proofs.C10 Proofs.C10_b.
 Open Scope Z_scope.
 
 (* each read lands in exactly the windows [i*s, i*s+b) that contain the coordinate *)
@@ -71,3 +71,101 @@ Theorem C10_split_double_bin : forall ds b, 0 < b ->
   split_double_bin ds b = Some (b * (ds / b), b * (ds / b) + b).
 Proof. exact split_double_bin_ok. Qed.
 Print Assumptions C10_split_double_bin.
+
+(* ---- added in session 4: consequences for the whole table ---- *)
+
+(* the two copies of coordinate_to_bins (utils.binning and bamToCountTable's own) agree everywhere *)
+Theorem C10_copies_agree : forall dp b s, 0 < s -> bins_u dp b s = bins_t dp b s.
+Proof. exact copies_agree. Qed.
+Print Assumptions C10_copies_agree.
+
+(* how many windows contain one coordinate: floor(b/s) or floor(b/s)+1, exactly b/s when s divides b,
+   and never none (so a counted read is never silently lost by the kernel) *)
+Theorem C10_window_count : forall dp b s, 0 < s -> s <= b ->
+  Z.of_nat (length (bins_t dp b s)) = dp / s - (dp - b) / s
+  /\ b / s <= Z.of_nat (length (bins_t dp b s)) <= b / s + 1
+  /\ bins_t dp b s <> [].
+Proof.
+  intros dp b s Hs Hb.
+  exact (conj (window_count dp b s Hs Hb) (conj (window_count_bounds dp b s Hs Hb) (at_least_one_window dp b s Hs Hb))).
+Qed.
+Print Assumptions C10_window_count.
+
+Theorem C10_window_count_divides : forall dp s m, 0 < s -> 1 <= m ->
+  Z.of_nat (length (bins_t dp (m * s) s)) = m.
+Proof. exact window_count_divides. Qed.
+Print Assumptions C10_window_count_divides.
+
+(* windows come out left to right, all of width b, all starting on a multiple of s *)
+Theorem C10_windows_sorted : forall dp b s, 0 < s ->
+  StronglySorted (fun p q => fst p < fst q /\ snd p < snd q) (bins_t dp b s)
+  /\ Forall (fun p => snd p = fst p + b /\ fst p mod s = 0) (bins_t dp b s).
+Proof. intros dp b s Hs. exact (conj (bins_sorted dp b s Hs) (bins_shape_all dp b s Hs)). Qed.
+Print Assumptions C10_windows_sorted.
+
+(* the statement's "consequently" clause in closed form, non-sliding: the table total is the summed
+   weight of the reads whose bin [k*b,(k+1)*b) lies inside [0, reflen] (all reads with keepOverBounds) *)
+Theorem C10_total_no_sliding : forall keep b reads, 0 < b ->
+  total (table keep b b reads) = weight_inside keep b reads.
+Proof. exact total_no_sliding. Qed.
+Print Assumptions C10_total_no_sliding.
+
+Theorem C10_total_keep : forall b reads, 0 < b -> total (table true b b reads) = weight_all reads.
+Proof. exact total_keep_no_sliding. Qed.
+Print Assumptions C10_total_keep.
+
+(* sliding with s | b and keepOverBounds: every read is counted exactly b/s times *)
+Theorem C10_total_keep_sliding : forall s m reads, 0 < s -> 1 <= m ->
+  total (table true (m * s) s reads) = m * weight_all reads.
+Proof. exact total_keep_divides. Qed.
+Print Assumptions C10_total_keep_sliding.
+
+(* which reads the bounds rule drops in non-sliding mode: exactly those in the trailing partial bin *)
+Theorem C10_partial_last_bin : forall reflen dp b, 0 < b -> 0 <= dp < reflen ->
+  counted_bins false reflen dp b b = [] <-> b * (reflen / b) <= dp.
+Proof. exact partial_last_bin. Qed.
+Print Assumptions C10_partial_last_bin.
+
+(* the table is a function of the MULTISET of reads: the order of reads, alignment files and contigs
+   does not matter, and counting two batches separately and adding equals counting them together *)
+Theorem C10_order_irrelevant : forall keep b s k lo hi r1 r2, 0 < s -> Permutation r1 r2 ->
+  cell (k, lo, hi) (table keep b s r1) = cell (k, lo, hi) (table keep b s r2)
+  /\ total (table keep b s r1) = total (table keep b s r2).
+Proof.
+  intros keep b s k lo hi r1 r2 Hs P.
+  exact (conj (cell_perm keep b s k lo hi r1 r2 Hs P) (total_perm keep b s r1 r2 P)).
+Qed.
+Print Assumptions C10_order_irrelevant.
+
+Theorem C10_additive : forall keep b s k lo hi r1 r2, 0 < s ->
+  cell (k, lo, hi) (table keep b s (r1 ++ r2))
+    = cell (k, lo, hi) (table keep b s r1) + cell (k, lo, hi) (table keep b s r2)
+  /\ total (table keep b s (r1 ++ r2)) = total (table keep b s r1) + total (table keep b s r2).
+Proof.
+  intros keep b s k lo hi r1 r2 Hs.
+  exact (conj (cell_app keep b s k lo hi r1 r2 Hs) (total_app keep b s r1 r2)).
+Qed.
+Print Assumptions C10_additive.
+
+(* one row per (key, window): no cell is split over two rows; and no phantom rows - every row is a
+   counted window of some read with that key *)
+Theorem C10_rows : forall keep b s reads, 0 < s ->
+  NoDup (map fst (table keep b s reads))
+  /\ forall q, In q (map fst (table keep b s reads)) ->
+       exists r, In r reads /\ In (snd (fst q), snd q) (counted_bins keep (r_reflen r) (r_dp r) b s)
+                 /\ fst (fst q) = r_key r.
+Proof.
+  intros keep b s reads Hs.
+  exact (conj (table_rows_NoDup keep b s reads) (fun q => table_rows_sound keep b s reads q Hs)).
+Qed.
+Print Assumptions C10_rows.
+
+(* non-vacuity for the added theorems: boundary coordinate, s not dividing b, a dropped trailing bin *)
+Example C10_added_examples :
+  length (bins_t 30 30 10) = 3%nat /\ length (bins_t 9 25 10) = 2%nat /\ length (bins_t 10 25 10) = 3%nat
+  /\ counted_bins false 100 95 30 30 = [] /\ counted_bins false 100 89 30 30 = [(60, 90)]
+  /\ total (table false 30 30 [ {| r_dp := 95; r_w := 2; r_key := 0; r_reflen := 100 |};
+                                {| r_dp := 60; r_w := 1; r_key := 0; r_reflen := 100 |} ]) = 1
+  /\ total (table true 30 10 [ {| r_dp := 30; r_w := 2; r_key := 0; r_reflen := 100 |} ]) = 6.
+Proof. vm_compute. repeat split. Qed.
+Print Assumptions C10_added_examples.
